@@ -265,7 +265,9 @@ def handle : List SExp → String
     | none => "bad-op"
   | [.atom "defects", q] =>
     match q? q with
-    | some q => showTags (WM.Clean.defects q) ++ " " ++ showBool (WM.Clean.clean q)
+    | some q =>
+      showTags (WM.Clean.defects q ++ (if WM.Clean.emptyOk q then [] else ["open-excl-start"])) ++ " "
+        ++ showBool (WM.Clean.clean q && WM.Clean.emptyOk q)
     | none => "bad-op"
   | [.atom "answers", e, qs] =>
     match env? e, qs? qs with
@@ -283,8 +285,9 @@ def handle : List SExp → String
     | some env =>
       match reader? env r, q? q with
       | some rd, some q =>
-        showTags (WM.Clean.defectsS env.multi env.bracket rd q) ++ " "
-          ++ showBool (WM.Clean.cleanS env.multi env.bracket rd q)
+        showTags (WM.Clean.defectsS env.multi env.bracket rd q
+            ++ (if WM.Clean.emptyOkS env.multi env.bracket rd q then [] else ["open-excl-start"])) ++ " "
+          ++ showBool (WM.Clean.cleanS env.multi env.bracket rd q && WM.Clean.emptyOkS env.multi env.bracket rd q)
       | _, _ => "bad-op"
     | none => "bad-op"
   | [.atom "estimate", e, r, qs] =>
